@@ -179,3 +179,269 @@ package autodiff
 //@   loop 3 invariant forall r int, k int :: r < old(alloc) && !old(owns_$R(c, r)) ==> row($F, r)[k] == old(row($F, r)[k])
 //@   loop 3 decreases c.N - i
 //@ end
+
+// lazy variants (derived from the eager contracts by gen_scalar_contracts.py)
+//@ for $R,$F in (Real64,float64)
+//@ func (*$R).monadicLazy [also: (*$R).realMonadicLazy]
+//@   model acmul
+//@   requires RI_$R(c) && RIc(a) && sep_$R(c, a)
+//@   ensures isa(*$R, result) && as(*$R, result) == c
+//@   ensures lift1_post_$R(c, a, v0, old(call(f1)), old(call(f2)))
+//@   modifies $R.Value@{c}, $R.N@{c}, $R.Order@{c}, $R.Derivative@{c}, $R.Hessian@{c}, []$F@{b :: owns_$R(c, b)}
+//@   loop 1 invariant 0 <= i && i <= c.N && c.Order >= 2 && RI_$R(c) && c.N == old(nvars(a)) && c.Order == old(order(a)) && order(a) == old(order(a)) && nvars(a) == old(nvars(a))
+//@   loop 1 invariant forall k int :: 0 <= k && k < c.N ==> D(a, k) == old(D(a, k))
+//@   loop 1 invariant forall p int, q int :: 0 <= p && p < i && p <= q && q < c.N ==> c.Hessian[p][q] == old(L1H(a, v1, v2, p, q)) && c.Hessian[q][p] == old(L1H(a, v1, v2, p, q))
+//@   loop 1 invariant forall p int, q int :: i <= p && p <= q && q < c.N ==> H(a, p, q) == old(H(a, p, q))
+//@   loop 1 invariant forall b int, k int :: b < old(alloc) && !old(owns_$R(c, b)) ==> row($F, b)[k] == old(row($F, b)[k])
+//@   loop 1 decreases c.N - i
+//@   loop 2 invariant 0 <= i && i < c.N && i <= j && j <= c.N && c.Order >= 2 && RI_$R(c) && c.N == old(nvars(a)) && c.Order == old(order(a)) && order(a) == old(order(a)) && nvars(a) == old(nvars(a))
+//@   loop 2 invariant forall k int :: 0 <= k && k < c.N ==> D(a, k) == old(D(a, k))
+//@   loop 2 invariant forall p int, q int :: 0 <= p && p < i && p <= q && q < c.N ==> c.Hessian[p][q] == old(L1H(a, v1, v2, p, q)) && c.Hessian[q][p] == old(L1H(a, v1, v2, p, q))
+//@   loop 2 invariant forall q int :: i <= q && q < j ==> c.Hessian[i][q] == old(L1H(a, v1, v2, i, q)) && c.Hessian[q][i] == old(L1H(a, v1, v2, i, q))
+//@   loop 2 invariant forall p int, q int :: i <= p && p <= q && q < c.N && !(p == i && q < j) ==> H(a, p, q) == old(H(a, p, q))
+//@   loop 2 invariant forall b int, k int :: b < old(alloc) && !old(owns_$R(c, b)) ==> row($F, b)[k] == old(row($F, b)[k])
+//@   loop 2 decreases c.N - j
+//@   loop 3 invariant 0 <= i && i <= c.N && c.Order >= 1 && RI_$R(c) && c.N == old(nvars(a)) && c.Order == old(order(a)) && order(a) == old(order(a)) && nvars(a) == old(nvars(a))
+//@   loop 3 invariant forall k int :: i <= k && k < c.N ==> D(a, k) == old(D(a, k))
+//@   loop 3 invariant forall k int :: 0 <= k && k < i ==> c.Derivative[k] == old(D(a, k)) * v1
+//@   loop 3 invariant c.Order >= 2 ==> (forall p int, q int :: 0 <= p && p <= q && q < c.N ==> c.Hessian[p][q] == old(L1H(a, v1, v2, p, q)) && c.Hessian[q][p] == old(L1H(a, v1, v2, p, q)))
+//@   loop 3 invariant forall b int, k int :: b < old(alloc) && !old(owns_$R(c, b)) ==> row($F, b)[k] == old(row($F, b)[k])
+//@   loop 3 decreases c.N - i
+//@ func (*$R).dyadicLazy [also: (*$R).realDyadicLazy]
+//@   model acmul
+//@   requires RI_$R(c) && RIc(a) && RIc(b) && sep_$R(c, a) && sep_$R(c, b) && constNoVars(a) && constNoVars(b) && noRealloc_$R(c, a, b)
+//@   panics_when order(a) >= 1 && order(b) >= 1 && nvars(a) != nvars(b)
+//@   ensures isa(*$R, result) && as(*$R, result) == c
+//@   ensures lift2_post_$R(c, a, b, v0, old(call0(f1)), old(call1(f1)), old(call0(f2)), old(call1(f2)), old(call2(f2)))
+//@   modifies $R.Value@{c}, $R.N@{c}, $R.Order@{c}, $R.Derivative@{c}, $R.Hessian@{c}, []$F@{q :: owns_$R(c, q)}
+//@   loop 1 invariant 0 <= i && i <= c.N && c.Order >= 2 && RI_$R(c) && c.N == old(max(nvars(a), nvars(b))) && c.Order == old(max(order(a), order(b)))
+//@   loop 1 invariant order(a) == old(order(a)) && nvars(a) == old(nvars(a)) && order(b) == old(order(b)) && nvars(b) == old(nvars(b))
+//@   loop 1 invariant forall k int :: 0 <= k && k < c.N ==> D(a, k) == old(D(a, k)) && D(b, k) == old(D(b, k))
+//@   loop 1 invariant forall p int, q int :: 0 <= p && p < i && p <= q && q < c.N ==> c.Hessian[p][q] == old(L2H(a, b, v10, v01, v11, v20, v02, p, q)) && c.Hessian[q][p] == old(L2H(a, b, v10, v01, v11, v20, v02, p, q))
+//@   loop 1 invariant forall p int, q int :: i <= p && p <= q && q < c.N ==> H(a, p, q) == old(H(a, p, q)) && H(b, p, q) == old(H(b, p, q))
+//@   loop 1 invariant forall r int, k int :: r < old(alloc) && !old(owns_$R(c, r)) ==> row($F, r)[k] == old(row($F, r)[k])
+//@   loop 1 decreases c.N - i
+//@   loop 2 invariant 0 <= i && i < c.N && i <= j && j <= c.N && c.Order >= 2 && RI_$R(c) && c.N == old(max(nvars(a), nvars(b))) && c.Order == old(max(order(a), order(b)))
+//@   loop 2 invariant order(a) == old(order(a)) && nvars(a) == old(nvars(a)) && order(b) == old(order(b)) && nvars(b) == old(nvars(b))
+//@   loop 2 invariant forall k int :: 0 <= k && k < c.N ==> D(a, k) == old(D(a, k)) && D(b, k) == old(D(b, k))
+//@   loop 2 invariant forall p int, q int :: 0 <= p && p < i && p <= q && q < c.N ==> c.Hessian[p][q] == old(L2H(a, b, v10, v01, v11, v20, v02, p, q)) && c.Hessian[q][p] == old(L2H(a, b, v10, v01, v11, v20, v02, p, q))
+//@   loop 2 invariant forall q int :: i <= q && q < j ==> c.Hessian[i][q] == old(L2H(a, b, v10, v01, v11, v20, v02, i, q)) && c.Hessian[q][i] == old(L2H(a, b, v10, v01, v11, v20, v02, i, q))
+//@   loop 2 invariant forall p int, q int :: i <= p && p <= q && q < c.N && !(p == i && q < j) ==> H(a, p, q) == old(H(a, p, q)) && H(b, p, q) == old(H(b, p, q))
+//@   loop 2 invariant forall r int, k int :: r < old(alloc) && !old(owns_$R(c, r)) ==> row($F, r)[k] == old(row($F, r)[k])
+//@   loop 2 decreases c.N - j
+//@   loop 3 invariant 0 <= i && i <= c.N && c.Order >= 1 && RI_$R(c) && c.N == old(max(nvars(a), nvars(b))) && c.Order == old(max(order(a), order(b)))
+//@   loop 3 invariant order(a) == old(order(a)) && nvars(a) == old(nvars(a)) && order(b) == old(order(b)) && nvars(b) == old(nvars(b))
+//@   loop 3 invariant forall k int :: i <= k && k < c.N ==> D(a, k) == old(D(a, k)) && D(b, k) == old(D(b, k))
+//@   loop 3 invariant forall k int :: 0 <= k && k < i ==> c.Derivative[k] == old(L2D(a, b, v10, v01, k))
+//@   loop 3 invariant c.Order >= 2 ==> (forall p int, q int :: 0 <= p && p <= q && q < c.N ==> c.Hessian[p][q] == old(L2H(a, b, v10, v01, v11, v20, v02, p, q)) && c.Hessian[q][p] == old(L2H(a, b, v10, v01, v11, v20, v02, p, q)))
+//@   loop 3 invariant forall r int, k int :: r < old(alloc) && !old(owns_$R(c, r)) ==> row($F, r)[k] == old(row($F, r)[k])
+//@   loop 3 decreases c.N - i
+//@ end
+
+// ---------------------------------------------------------------------------
+// operations: value and first/second derivative coefficients against the NAMED function
+// (formulas below are generated by symbolic differentiation; see /verif/spec/gen_scalar_contracts.py)
+
+//@ props C01 C02 C08 C09
+//@ for $R,$F in (Real64,float64)
+//@ func (*$R).Neg
+//@   model split
+//@   requires RI_$R(c) && RIc(a) && sep_$R(c, a)
+//@   site monadic @v0 v0 == ((0 - 1) * val(a))
+//@   site monadic @v1 v1 == (-1)
+//@   site monadic @v2 v2 == 0
+//@   ensures isa(*$R, result) && as(*$R, result) == c
+//@   ensures lift1_post_$R(c, a, ((0 - 1) * old(val(a))), (-1), 0)
+//@   modifies $R.Value@{c}, $R.N@{c}, $R.Order@{c}, $R.Derivative@{c}, $R.Hessian@{c}, []$F@{q :: owns_$R(c, q)}
+
+//@ func (*$R).Sin
+//@   model split
+//@   requires RI_$R(c) && RIc(a) && sep_$R(c, a)
+//@   site monadicLazy @v0 v0 == sin(val(a))
+//@   site monadicLazy @v1 call(f1) == cos(val(a))
+//@   site monadicLazy @v2 call(f2) == ((0 - 1) * sin(val(a)))
+//@   ensures isa(*$R, result) && as(*$R, result) == c
+//@   ensures lift1_post_$R(c, a, sin(old(val(a))), cos(old(val(a))), ((0 - 1) * sin(old(val(a)))))
+//@   modifies $R.Value@{c}, $R.N@{c}, $R.Order@{c}, $R.Derivative@{c}, $R.Hessian@{c}, []$F@{q :: owns_$R(c, q)}
+
+//@ func (*$R).Sinh
+//@   model split
+//@   requires RI_$R(c) && RIc(a) && sep_$R(c, a)
+//@   site monadicLazy @v0 v0 == sinh(val(a))
+//@   site monadicLazy @v1 call(f1) == cosh(val(a))
+//@   site monadicLazy @v2 call(f2) == sinh(val(a))
+//@   ensures isa(*$R, result) && as(*$R, result) == c
+//@   ensures lift1_post_$R(c, a, sinh(old(val(a))), cosh(old(val(a))), sinh(old(val(a))))
+//@   modifies $R.Value@{c}, $R.N@{c}, $R.Order@{c}, $R.Derivative@{c}, $R.Hessian@{c}, []$F@{q :: owns_$R(c, q)}
+
+//@ func (*$R).Cos
+//@   model split
+//@   requires RI_$R(c) && RIc(a) && sep_$R(c, a)
+//@   site monadicLazy @v0 v0 == cos(val(a))
+//@   site monadicLazy @v1 call(f1) == ((0 - 1) * sin(val(a)))
+//@   site monadicLazy @v2 call(f2) == ((0 - 1) * cos(val(a)))
+//@   ensures isa(*$R, result) && as(*$R, result) == c
+//@   ensures lift1_post_$R(c, a, cos(old(val(a))), ((0 - 1) * sin(old(val(a)))), ((0 - 1) * cos(old(val(a)))))
+//@   modifies $R.Value@{c}, $R.N@{c}, $R.Order@{c}, $R.Derivative@{c}, $R.Hessian@{c}, []$F@{q :: owns_$R(c, q)}
+
+//@ func (*$R).Cosh
+//@   model split
+//@   requires RI_$R(c) && RIc(a) && sep_$R(c, a)
+//@   site monadicLazy @v0 v0 == cosh(val(a))
+//@   site monadicLazy @v1 call(f1) == sinh(val(a))
+//@   site monadicLazy @v2 call(f2) == cosh(val(a))
+//@   ensures isa(*$R, result) && as(*$R, result) == c
+//@   ensures lift1_post_$R(c, a, cosh(old(val(a))), sinh(old(val(a))), cosh(old(val(a))))
+//@   modifies $R.Value@{c}, $R.N@{c}, $R.Order@{c}, $R.Derivative@{c}, $R.Hessian@{c}, []$F@{q :: owns_$R(c, q)}
+
+//@ func (*$R).Tan
+//@   model split
+//@   requires RI_$R(c) && RIc(a) && sep_$R(c, a)
+//@   site monadicLazy @v0 v0 == tan(val(a))
+//@   site monadicLazy @v1 call(f1) == ((tan(val(a)) * tan(val(a))) + 1)
+//@   site monadicLazy @v2 call(f2) == (((2 * (tan(val(a)) * tan(val(a)))) + 2) * tan(val(a)))
+//@   ensures isa(*$R, result) && as(*$R, result) == c
+//@   ensures lift1_post_$R(c, a, tan(old(val(a))), ((tan(old(val(a))) * tan(old(val(a)))) + 1), (((2 * (tan(old(val(a))) * tan(old(val(a))))) + 2) * tan(old(val(a)))))
+//@   modifies $R.Value@{c}, $R.N@{c}, $R.Order@{c}, $R.Derivative@{c}, $R.Hessian@{c}, []$F@{q :: owns_$R(c, q)}
+
+//@ func (*$R).Tanh
+//@   model split
+//@   requires RI_$R(c) && RIc(a) && sep_$R(c, a)
+//@   site monadicLazy @v0 v0 == tanh(val(a))
+//@   site monadicLazy @v1 call(f1) == (1 + ((0 - 1) * (tanh(val(a)) * tanh(val(a)))))
+//@   site monadicLazy @v2 call(f2) == ((0 - 1) * (2 + ((-2) * (tanh(val(a)) * tanh(val(a))))) * tanh(val(a)))
+//@   ensures isa(*$R, result) && as(*$R, result) == c
+//@   ensures lift1_post_$R(c, a, tanh(old(val(a))), (1 + ((0 - 1) * (tanh(old(val(a))) * tanh(old(val(a)))))), ((0 - 1) * (2 + ((-2) * (tanh(old(val(a))) * tanh(old(val(a)))))) * tanh(old(val(a)))))
+//@   modifies $R.Value@{c}, $R.N@{c}, $R.Order@{c}, $R.Derivative@{c}, $R.Hessian@{c}, []$F@{q :: owns_$R(c, q)}
+
+//@ func (*$R).Exp
+//@   model split
+//@   requires RI_$R(c) && RIc(a) && sep_$R(c, a)
+//@   site monadicLazy @v0 v0 == exp(val(a))
+//@   site monadicLazy @v1 call(f1) == exp(val(a))
+//@   site monadicLazy @v2 call(f2) == exp(val(a))
+//@   ensures isa(*$R, result) && as(*$R, result) == c
+//@   ensures lift1_post_$R(c, a, exp(old(val(a))), exp(old(val(a))), exp(old(val(a))))
+//@   modifies $R.Value@{c}, $R.N@{c}, $R.Order@{c}, $R.Derivative@{c}, $R.Hessian@{c}, []$F@{q :: owns_$R(c, q)}
+
+//@ func (*$R).Log
+//@   model split
+//@   requires RI_$R(c) && RIc(a) && sep_$R(c, a)
+//@   requires val(a) > 0
+//@   site monadicLazy @v0 v0 == log(val(a))
+//@   site monadicLazy @v1 call(f1) == (1 / (val(a)))
+//@   site monadicLazy @v2 call(f2) == (((0 - 1)) / ((val(a) * val(a))))
+//@   ensures isa(*$R, result) && as(*$R, result) == c
+//@   ensures lift1_post_$R(c, a, log(old(val(a))), (1 / (old(val(a)))), (((0 - 1)) / ((old(val(a)) * old(val(a))))))
+//@   modifies $R.Value@{c}, $R.N@{c}, $R.Order@{c}, $R.Derivative@{c}, $R.Hessian@{c}, []$F@{q :: owns_$R(c, q)}
+
+//@ func (*$R).Log1p
+//@   model split
+//@   requires RI_$R(c) && RIc(a) && sep_$R(c, a)
+//@   requires val(a) > 0 - 1
+//@   site monadicLazy @v0 v0 == log1p(val(a))
+//@   site monadicLazy @v1 call(f1) == (1 / ((val(a) + 1)))
+//@   site monadicLazy @v2 call(f2) == (((0 - 1)) / (((val(a) + 1) * (val(a) + 1))))
+//@   ensures isa(*$R, result) && as(*$R, result) == c
+//@   ensures lift1_post_$R(c, a, log1p(old(val(a))), (1 / ((old(val(a)) + 1))), (((0 - 1)) / (((old(val(a)) + 1) * (old(val(a)) + 1)))))
+//@   modifies $R.Value@{c}, $R.N@{c}, $R.Order@{c}, $R.Derivative@{c}, $R.Hessian@{c}, []$F@{q :: owns_$R(c, q)}
+
+//@ func (*$R).Erf
+//@   model split
+//@   requires RI_$R(c) && RIc(a) && sep_$R(c, a)
+//@   site monadicLazy @v0 v0 == erf(val(a))
+//@   site monadicLazy @v1 call(f1) == ((2 * (1 / exp((val(a) * val(a))))) / (SQRTPI))
+//@   site monadicLazy @v2 call(f2) == (((-4) * val(a) * (1 / exp((val(a) * val(a))))) / (SQRTPI))
+//@   ensures isa(*$R, result) && as(*$R, result) == c
+//@   ensures lift1_post_$R(c, a, erf(old(val(a))), ((2 * (1 / exp((old(val(a)) * old(val(a)))))) / (SQRTPI)), (((-4) * old(val(a)) * (1 / exp((old(val(a)) * old(val(a)))))) / (SQRTPI)))
+//@   modifies $R.Value@{c}, $R.N@{c}, $R.Order@{c}, $R.Derivative@{c}, $R.Hessian@{c}, []$F@{q :: owns_$R(c, q)}
+
+//@ func (*$R).Erfc
+//@   model split
+//@   requires RI_$R(c) && RIc(a) && sep_$R(c, a)
+//@   site monadicLazy @v0 v0 == erfc(val(a))
+//@   site monadicLazy @v1 call(f1) == (((-2) * (1 / exp((val(a) * val(a))))) / (SQRTPI))
+//@   site monadicLazy @v2 call(f2) == ((4 * val(a) * (1 / exp((val(a) * val(a))))) / (SQRTPI))
+//@   ensures isa(*$R, result) && as(*$R, result) == c
+//@   ensures lift1_post_$R(c, a, erfc(old(val(a))), (((-2) * (1 / exp((old(val(a)) * old(val(a)))))) / (SQRTPI)), ((4 * old(val(a)) * (1 / exp((old(val(a)) * old(val(a)))))) / (SQRTPI)))
+//@   modifies $R.Value@{c}, $R.N@{c}, $R.Order@{c}, $R.Derivative@{c}, $R.Hessian@{c}, []$F@{q :: owns_$R(c, q)}
+
+//@ func (*$R).Gamma
+//@   model split
+//@   requires RI_$R(c) && RIc(a) && sep_$R(c, a)
+//@   site monadicLazy @v0 v0 == gamma(val(a))
+//@   site monadicLazy @v1 call(f1) == (digamma(val(a)) * gamma(val(a)))
+//@   site monadicLazy @v2 call(f2) == (((digamma(val(a)) * digamma(val(a))) * gamma(val(a))) + (gamma(val(a)) * trigamma(val(a))))
+//@   ensures isa(*$R, result) && as(*$R, result) == c
+//@   ensures lift1_post_$R(c, a, gamma(old(val(a))), (digamma(old(val(a))) * gamma(old(val(a)))), (((digamma(old(val(a))) * digamma(old(val(a)))) * gamma(old(val(a)))) + (gamma(old(val(a))) * trigamma(old(val(a))))))
+//@   modifies $R.Value@{c}, $R.N@{c}, $R.Order@{c}, $R.Derivative@{c}, $R.Hessian@{c}, []$F@{q :: owns_$R(c, q)}
+
+//@ func (*$R).Lgamma
+//@   model split
+//@   requires RI_$R(c) && RIc(a) && sep_$R(c, a)
+//@   requires val(a) > 0
+//@   site monadicLazy @v0 v0 == lgamma(val(a))
+//@   site monadicLazy @v1 call(f1) == digamma(val(a))
+//@   site monadicLazy @v2 call(f2) == trigamma(val(a))
+//@   ensures isa(*$R, result) && as(*$R, result) == c
+//@   ensures lift1_post_$R(c, a, lgamma(old(val(a))), digamma(old(val(a))), trigamma(old(val(a))))
+//@   modifies $R.Value@{c}, $R.N@{c}, $R.Order@{c}, $R.Derivative@{c}, $R.Hessian@{c}, []$F@{q :: owns_$R(c, q)}
+
+//@ func (*$R).Add
+//@   model split
+//@   requires RI_$R(c) && RIc(a) && RIc(b) && sep_$R(c, a) && sep_$R(c, b) && constNoVars(a) && constNoVars(b) && noRealloc_$R(c, a, b)
+//@   panics_when order(a) >= 1 && order(b) >= 1 && nvars(a) != nvars(b)
+//@   site dyadic @v0 v0 == (val(a) + val(b))
+//@   site dyadic @v10 v10 == 1
+//@   site dyadic @v01 v01 == 1
+//@   site dyadic @v11 v11 == 0
+//@   site dyadic @v20 v20 == 0
+//@   site dyadic @v02 v02 == 0
+//@   ensures isa(*$R, result) && as(*$R, result) == c
+//@   ensures lift2_post_$R(c, a, b, (old(val(a)) + old(val(b))), 1, 1, 0, 0, 0)
+//@   modifies $R.Value@{c}, $R.N@{c}, $R.Order@{c}, $R.Derivative@{c}, $R.Hessian@{c}, []$F@{q :: owns_$R(c, q)}
+
+//@ func (*$R).Sub
+//@   model split
+//@   requires RI_$R(c) && RIc(a) && RIc(b) && sep_$R(c, a) && sep_$R(c, b) && constNoVars(a) && constNoVars(b) && noRealloc_$R(c, a, b)
+//@   panics_when order(a) >= 1 && order(b) >= 1 && nvars(a) != nvars(b)
+//@   site dyadic @v0 v0 == (val(a) + ((0 - 1) * val(b)))
+//@   site dyadic @v10 v10 == 1
+//@   site dyadic @v01 v01 == (-1)
+//@   site dyadic @v11 v11 == 0
+//@   site dyadic @v20 v20 == 0
+//@   site dyadic @v02 v02 == 0
+//@   ensures isa(*$R, result) && as(*$R, result) == c
+//@   ensures lift2_post_$R(c, a, b, (old(val(a)) + ((0 - 1) * old(val(b)))), 1, (-1), 0, 0, 0)
+//@   modifies $R.Value@{c}, $R.N@{c}, $R.Order@{c}, $R.Derivative@{c}, $R.Hessian@{c}, []$F@{q :: owns_$R(c, q)}
+
+//@ func (*$R).Mul
+//@   model split
+//@   requires RI_$R(c) && RIc(a) && RIc(b) && sep_$R(c, a) && sep_$R(c, b) && constNoVars(a) && constNoVars(b) && noRealloc_$R(c, a, b)
+//@   panics_when order(a) >= 1 && order(b) >= 1 && nvars(a) != nvars(b)
+//@   site dyadic @v0 v0 == (val(a) * val(b))
+//@   site dyadic @v10 v10 == val(b)
+//@   site dyadic @v01 v01 == val(a)
+//@   site dyadic @v11 v11 == 1
+//@   site dyadic @v20 v20 == 0
+//@   site dyadic @v02 v02 == 0
+//@   ensures isa(*$R, result) && as(*$R, result) == c
+//@   ensures lift2_post_$R(c, a, b, (old(val(a)) * old(val(b))), old(val(b)), old(val(a)), 1, 0, 0)
+//@   modifies $R.Value@{c}, $R.N@{c}, $R.Order@{c}, $R.Derivative@{c}, $R.Hessian@{c}, []$F@{q :: owns_$R(c, q)}
+
+//@ func (*$R).Div
+//@   model split
+//@   requires RI_$R(c) && RIc(a) && RIc(b) && sep_$R(c, a) && sep_$R(c, b) && constNoVars(a) && constNoVars(b) && noRealloc_$R(c, a, b)
+//@   requires val(b) != 0
+//@   panics_when order(a) >= 1 && order(b) >= 1 && nvars(a) != nvars(b)
+//@   site dyadic @v0 v0 == ((val(a)) / (val(b)))
+//@   site dyadic @v10 v10 == (1 / (val(b)))
+//@   site dyadic @v01 v01 == (((0 - 1) * val(a)) / ((val(b) * val(b))))
+//@   site dyadic @v11 v11 == (((0 - 1)) / ((val(b) * val(b))))
+//@   site dyadic @v20 v20 == 0
+//@   site dyadic @v02 v02 == ((2 * val(a)) / ((val(b) * val(b) * val(b))))
+//@   ensures isa(*$R, result) && as(*$R, result) == c
+//@   ensures lift2_post_$R(c, a, b, ((old(val(a))) / (old(val(b)))), (1 / (old(val(b)))), (((0 - 1) * old(val(a))) / ((old(val(b)) * old(val(b))))), (((0 - 1)) / ((old(val(b)) * old(val(b))))), 0, ((2 * old(val(a))) / ((old(val(b)) * old(val(b)) * old(val(b))))))
+//@   modifies $R.Value@{c}, $R.N@{c}, $R.Order@{c}, $R.Derivative@{c}, $R.Hessian@{c}, []$F@{q :: owns_$R(c, q)}
+
+//@ end
